@@ -538,9 +538,17 @@ func (s *scope) Close() error {
 
 	if s.root {
 		verifYield(65)
+		// Let the report loop finish its current pass and exit, so that no
+		// report or flush is running, or can start, once Close has returned.
+		s.wg.Wait()
 		verifYield(63)
 		s.reportRegistry()
 		verifYield(64)
+		// Drop every scope only now that the final report has visited it
+		// (test scopes are never reported and keep their metrics).
+		if !s.testScope {
+			s.registry.purgeIfRootClosed()
+		}
 		if closer, ok := s.baseReporter.(io.Closer); ok {
 			return closer.Close()
 		}
